@@ -37,6 +37,7 @@ pub fn oracle_c05(op: &str, outs: &[String]) -> String {
     }
     let (_, evs) = split_events(op);
     let mut last: Option<u32> = None;
+    let mut last_known = true;
     let mut joined = false;
     let mut win: Option<(u32, u32)> = None;
     let mut accepted: Vec<u32> = vec![];
@@ -46,11 +47,13 @@ pub fn oracle_c05(op: &str, outs: &[String]) -> String {
             "abp" => {
                 joined = true;
                 last = None;
+                last_known = true;
                 accepted.clear();
             }
             "sess" => {
                 joined = true;
                 last = w[3].parse().ok();
+                last_known = true;
                 accepted.clear();
             }
             "otaa" => {
@@ -65,6 +68,7 @@ pub fn oracle_c05(op: &str, outs: &[String]) -> String {
                 if out.contains("resp=JoinSuccess") {
                     joined = true;
                     last = None;
+                    last_known = true;
                     accepted.clear();
                     continue;
                 }
@@ -99,7 +103,17 @@ pub fn oracle_c05(op: &str, outs: &[String]) -> String {
                             (Some(n), Some(l)) => n % 65536 == f16 && (l as u64) < n as u64 && n as u64 <= l as u64 + 16384,
                             (None, _) => false,
                         };
-                        if let Some(fits) = fits {
+                        // `SessionExpired` is reported both for an accepted frame at the end of the
+                        // counter space and for a procedure an oversized frame ended there: it does not
+                        // tell the two apart, so such an event is not judged (the counter bookkeeping below
+                        // follows the reference rule)
+                        let expired = out.starts_with("resp=SessionExpired");
+                        if expired && fits.is_none() {
+                            // cannot tell whether this frame was accepted: the reference counter is
+                            // unknown until the device reports the next accepted counter
+                            last_known = false;
+                        }
+                        if let (Some(fits), false, true) = (fits, expired, last_known) {
                             let expect = fits && fresh;
                             if acc != expect {
                                 return format!("FAIL:frame-fcnt16={}-mic={:?}-last={:?}-fits={} was-{}accepted", f16, mic, last, fits, if acc { "" } else { "not-" });
@@ -114,6 +128,7 @@ pub fn oracle_c05(op: &str, outs: &[String]) -> String {
                                 return format!("FAIL:counter-{}-accepted-twice", n);
                             }
                             accepted.push(n);
+                            last_known = true;
                             // the payload handed to the application is the one decrypted with N
                             let port = w[9];
                             let dl = out.split("dl=").nth(1).unwrap_or("").split_whitespace().next().unwrap_or("");
@@ -126,7 +141,7 @@ pub fn oracle_c05(op: &str, outs: &[String]) -> String {
                                 return "FAIL:delivered-a-payload-without-application-port".into();
                             }
                         }
-                        if acc {
+                        if acc && !(expired && !(fits == Some(true) && fresh)) {
                             if let Some(n) = mic {
                                 last = Some(n);
                             }
@@ -794,6 +809,7 @@ pub fn oracle_c12(op: &str, outs: &[String]) -> String {
     let mut cnt: u32 = 0;
     let mut dr: u8 = 0;
     let mut resync_dr = false;
+    let mut win12: Option<(u32, u32)> = None;
     let mut devaddr: u32 = 0;
     let mut joined = false;
     let mut pending_uplink = false;
@@ -832,6 +848,7 @@ pub fn oracle_c12(op: &str, outs: &[String]) -> String {
                     Some(u) => u,
                     None => return "FAIL:uplink-not-decodable".into(),
                 };
+                win12 = Some((tx.rx1.mp, tx.rx2.mp));
                 if resync_dr {
                     // an accepted Class A downlink carried a LinkADRReq: the network may have commanded
                     // another data rate (C08/C09 judge that); the automaton follows the rate in use
@@ -883,7 +900,17 @@ pub fn oracle_c12(op: &str, outs: &[String]) -> String {
                     cnt = 0;
                     continue;
                 }
-                if out.starts_with("resp=DownlinkReceived(") || out.starts_with("resp=SessionExpired") {
+                // `SessionExpired` also ends a procedure in which an oversized frame was heard at the
+                // end of the counter space: it counts as an acceptance only for an authentic frame that
+                // fits the window (a stale one would have been answered with NoUpdate)
+                let fits12 = match (w[0], win12) {
+                    ("rx1", Some((a, _))) => w.get(4).and_then(|x| x.parse::<u32>().ok()).map(|l| l <= a + 5),
+                    ("rx2", Some((_, b))) => w.get(4).and_then(|x| x.parse::<u32>().ok()).map(|l| l <= b + 5),
+                    _ => Some(true),
+                };
+                let authentic12 = w.len() >= 8 && w[3] == "d" && w[7] != "-";
+                let expired_accept = out.starts_with("resp=SessionExpired") && authentic12 && fits12 == Some(true);
+                if out.starts_with("resp=DownlinkReceived(") || expired_accept {
                     cnt = 0;
                     if w[5] == "1" {
                         ack_owed = true;
@@ -898,6 +925,9 @@ pub fn oracle_c12(op: &str, outs: &[String]) -> String {
                             resync_dr = true;
                         }
                     }
+                    pending_uplink = false;
+                } else if out.starts_with("resp=SessionExpired") {
+                    // the procedure ended at the end of the counter space without an acceptance
                     pending_uplink = false;
                 } else if (out.starts_with("resp=RxComplete") || out.starts_with("resp=NoAck")) && w[0] != "rxc" {
                     // an oversized frame ended the receive procedure as a timeout would
